@@ -291,7 +291,12 @@ def run_multi(case, ctx):
                 ctx.count('full_output_set_after_construction')
             else:
                 obj = getattr(nd, cls)(rec, **kw)
-            val, info = obj(x.copy())
+            x_given = x.copy()
+            if cls == 'Gradient' and dim == 4 and case['seed'] % 3 == 0:
+                # the point as a 2 x 2 matrix (C or Fortran order): the record must still line up with the flat gradient
+                x_given = x.reshape(2, 2).copy(order='F' if case['seed'] % 2 else 'C')
+                ctx.count('gradient_of_matrix_x_record_asserted')
+            val, info = obj(x_given)
     except Exception as exc:
         ctx.count('multi_raised:%s(decided by C03/C04/C11)' % type(exc).__name__)
         return
